@@ -1,7 +1,7 @@
 """C11 — dissipativity-constrained fits are dissipative and not vacuous."""
 import json
 import numpy as np
-from .. import common, driver, known, lmi
+from .. import common, driver, known, lmi, altern
 from . import _dp
 import pykoop
 import pykoop.lmi_regressors as L
@@ -125,9 +125,22 @@ def run(res, tier):
     res.assumptions += ['CVXOPT/PICOS feasibility when "optimal" is an oracle contract; theorem: LMI => dissipation inequality for '
                         'every input sequence and horizon (AlgR/Dissip.v, standard-library real-number axioms)']
 
-    class B:
-        meta = {}
-    _dp.conclude(res, PID, proved, B(), [], [], bad, 'Props/C11.v (dissipation from the LMI) + per-fit certificate checks')
+    # M3(b): the alternation loop driven by a scripted solver oracle vs coq/Altern.v (compared inside Coq)
+    classes = [(L.LmiEdmdDissipativityConstr, {}, 1)]
+    batch, failed, errors, n_scr, s_scr, d_scr = altern.run_scripts(rng, classes, 40 if tier == 'quick' else 600, 'c11_altern')
+    res.coverage['programs'] = res.coverage.get('programs', 0) + n_scr
+    res.coverage['disagreements_checked'] = res.coverage.get('disagreements_checked', 0) + n_scr
+    res.coverage['evaluations'] = res.coverage.get('evaluations', 0) + n_scr
+    res.coverage['distinct_nontrivial'] = res.coverage.get('distinct_nontrivial', 0) + len(
+        {json.dumps(batch.meta[i][0]['script'], sort_keys=True) + batch.meta[i][0]['estimator'] for i in batch.meta})
+    res.coverage['scripted_solver_runs'] = dict(runs=n_scr, exit_reasons=d_scr, model_vs_impl_disagreements=len(failed),
+                                                coq_case_errors=len(errors))
+    res.coverage['samples'] = list(res.coverage.get('samples', [])) + s_scr[:1]
+    res.coverage['rule'] += (' Scripted solver (M3b): random scripts of optimal / non-optimal answers to the sub-problems A_k, B_k with '
+                             'tagged values, integer objectives, a polite-stop request at a random check, max_iter 1..5, atol in '
+                             '{0,1,3}; the returned tags of U (and gamma_), P_, objective_log_, n_iter_, the class of stop_reason_ and '
+                             'the arguments each sub-problem was built from are compared inside Coq with Altern.fit on the same script.')
+    _dp.conclude(res, PID, proved, batch, failed, errors, bad, 'Props/C11.v (dissipation from the LMI) + per-fit certificate checks + alternation-loop correspondence (Altern.v)')
 
 
 def replay(path):
